@@ -6,6 +6,7 @@ import (
 	"time"
 
 	"github.com/form3tech-oss/f1/v2/internal/trigger/api"
+	"github.com/form3tech-oss/f1/v2/internal/trigger/file"
 )
 
 // C13 traces of the REAL api.WithJitter (with its real random source) around scripted rates.
@@ -64,6 +65,43 @@ func runC13(c *ctx, jScaled int, shape string, rmax, n int) (tr c13trace) {
 	return tr
 }
 
+// the same through the config-file front end: a constant stage whose jitter is its OWN value when it writes one - an
+// explicit 0 too - and the default section's otherwise; the rate function is the one the parsed stage carries
+func runC13File(defJ, stJ, rate, n int) (tr c13trace) {
+	eff := stJ
+	if stJ < 0 {
+		eff = defJ
+	}
+	if eff < 0 {
+		eff = 0
+	}
+	tr = c13trace{J: eff * 100, Shape: fmt.Sprintf("file(default=%d,stage=%d)", defJ, stJ), Ev: make([][2]int, 0, n)}
+	defer func() {
+		if r := recover(); r != nil {
+			tr.Panicked = true
+			tr.Err = fmt.Sprint(r)
+		}
+	}()
+	y := "scenario: scn\nlimits:\n  max-duration: 1m\n  concurrency: 4\n  max-iterations: 0\n  ignore-dropped: true\ndefault:\n  distribution: none\n  duration: 1h\n"
+	if defJ >= 0 {
+		y += fmt.Sprintf("  jitter: %d\n", defJ)
+	}
+	y += fmt.Sprintf("stages:\n- mode: constant\n  rate: %d/1s\n", rate)
+	if stJ >= 0 {
+		y += fmt.Sprintf("  jitter: %d\n", stJ)
+	}
+	now := time.Date(2030, 1, 2, 3, 4, 0, 0, time.UTC)
+	rs, err := file.ParseConfigFile([]byte(y), now)
+	if err != nil || len(rs.Stages) != 1 || rs.Stages[0].Rate == nil {
+		tr.Panicked, tr.Err = true, fmt.Sprint("config not accepted: ", err)
+		return tr
+	}
+	for i := 0; i < n; i++ {
+		tr.Ev = append(tr.Ev, [2]int{rate, rs.Stages[0].Rate(now.Add(time.Duration(i) * time.Second))})
+	}
+	return tr
+}
+
 func init() {
 	register("c13", func(c *ctx) error {
 		w, err := newNDJSON(filepath.Join(c.out, "c13.ndjson"))
@@ -109,6 +147,9 @@ func init() {
 					w.write(runC13(c, j, sh, rmax, nn))
 				}
 			}
+		}
+		for _, ds := range [][2]int{{50, 0}, {80, 0}, {50, 20}, {0, 30}, {-1, 0}, {40, -1}, {-1, -1}, {0, 0}, {20, 50}} {
+			w.write(runC13File(ds[0], ds[1], []int{10, 100, 1000}[c.rng.Intn(3)], 300))
 		}
 		fmt.Println("c13 traces:", w.n)
 		return nil
